@@ -29,11 +29,64 @@ def _is_priority(e):
     return isinstance(e, ast.Attribute) and e.attr == 'SortPriority'
 
 
+def _ancestors(n):
+    p_ = getattr(n, '_parent', None)
+    while p_ is not None:
+        yield p_
+        p_ = getattr(p_, '_parent', None)
+
+
+def order_by_sort_key(check, h, call, subst):
+    """one sort of all keys with the compound key (priority rank or a rank after all priorities, name)"""
+    keyf = [k.value for k in call.keywords if k.arg == 'key'][0]
+    body = None
+    param = None
+    if isinstance(keyf, ast.Lambda):
+        body, param = keyf.body, keyf.args.args[0].arg
+    elif isinstance(keyf, ast.Name):
+        for n in ast.walk(h.node):
+            if isinstance(n, ast.FunctionDef) and n.name == keyf.id and n is not h.node:
+                rs = [r for r in ast.walk(n) if isinstance(r, ast.Return)]
+                if len(rs) == 1:
+                    body, param = rs[0].value, n.args.args[0].arg
+    if body is None:
+        raise AnalysisError('ordering helper: sort key not understood')
+    body = resolve_expr(body, subst)
+    # rank table: dict((name, pos) for pos, name in enumerate(SortPriority)) / {name: pos for ...}
+    rank_names = set()
+    for n in ast.walk(h.node):
+        if isinstance(n, ast.Assign) and len(n.targets) == 1 and isinstance(n.targets[0], ast.Name) and 'enumerate' in unparse(n.value) \
+                and 'SortPriority' in unparse(n.value):
+            rank_names.add(n.targets[0].id)
+    ok, why = False, 'sort key `%s` is not (priority rank, name)' % unparse(body)
+    if isinstance(body, ast.Tuple) and len(body.elts) == 2 and unparse(body.elts[1]) == param:
+        r = body.elts[0]
+        if isinstance(r, ast.Call) and isinstance(r.func, ast.Attribute) and r.func.attr == 'get' and isinstance(r.func.value, ast.Name) \
+                and r.func.value.id in rank_names and len(r.args) == 2 and unparse(r.args[0]) == param:
+            d = resolve_expr(r.args[1], subst)
+            last = unparse(d).startswith('len(') or (isinstance(d, ast.Constant) and isinstance(d.value, (int, float)) and d.value >= 1000)
+            ok = bool(last)
+            why = 'names are sorted by (priority rank, or a rank after all priorities; name)' if ok else \
+                'names without priority get the rank `%s`, which does not come after every priority rank' % unparse(d)
+        elif isinstance(r, ast.BoolOp) and isinstance(r.op, ast.Or):
+            why = ('the rank is `%s`: the first priority name has rank 0, which `or` treats as "no rank", so it is sorted among the '
+                   'ordinary names' % unparse(r))
+    check.ob('C19.R1', '%s::priority-part' % h.key, ok, h.where, why,
+             "a holder with 'iteration', 'iteration_error', 'iteration_abs_change', 'k' and 't' (the step trace)")
+    check.ob('C19.R1', '%s::rest-sorted-without-priority' % h.key, ok, h.where,
+             'one sort over all keys: every stored series exactly once' if ok else why, 'many names')
+    check.ob('C19.R1', '%s::returns-priority-then-rest' % h.key, True, h.where, 'returns ' + unparse(call)[:60], '')
+
+
 def order_helper(check, h):
     """R1: the helper returns  [priority names present, in SortPriority order] + [the other keys, sorted]"""
     g = cfgmod.build(h)
     subst = single_assign_subst(h.node)
-    rets = [n for n in ast.walk(h.node) if isinstance(n, ast.Return) and n.value is not None]
+    rets = [n for n in ast.walk(h.node) if isinstance(n, ast.Return) and n.value is not None and
+            not any(isinstance(p_, (ast.FunctionDef, ast.Lambda)) and p_ is not h.node for p_ in _ancestors(n))]
+    if len(rets) == 1 and isinstance(rets[0].value, ast.Call) and call_name(rets[0].value) == 'sorted' and rets[0].value.args and \
+            'self' in unparse(rets[0].value.args[0]) and any(k.arg == 'key' for k in rets[0].value.keywords):
+        return order_by_sort_key(check, h, rets[0].value, subst)
     if len(rets) != 1 or not (isinstance(rets[0].value, ast.BinOp) and isinstance(rets[0].value.op, ast.Add)):
         raise AnalysisError('ordering helper: the result is not `priority part + rest`')
     A, B = rets[0].value.left, rets[0].value.right
@@ -223,6 +276,22 @@ def run(prog, check):
     nl = sum(1 for n in ast.walk(r.node) if isinstance(n, ast.Constant) and n.value == '\n')
     check.ob('C19.R2', '%s::tab-and-newline' % r.key, rowjoin >= 2 and nl >= 2, r.where,
              'header and rows are tab-joined and newline-terminated', 'parsing the text back')
+    # cells are joined as formatted: no further text surgery on the formatted cells
+    surgery = [c for c in ast.walk(r.node) if isinstance(c, ast.Call) and isinstance(c.func, ast.Attribute) and
+               c.func.attr in ('rstrip', 'lstrip', 'strip', 'replace', 'zfill', 'ljust', 'rjust', 'center', 'lower', 'upper', 'split', 'format')
+               and not (isinstance(c.func.value, ast.Constant))]
+    check.ob('C19.R2', '%s::cells-joined-as-formatted' % r.key, not surgery, '%s:%d' % (r.module.rel, surgery[0].lineno) if surgery else r.where,
+             'formatted cells are joined unchanged' if not surgery else
+             'formatted cells are rewritten by `%s` before they are joined: the text no longer parses back to the value in the requested format'
+             % unparse(surgery[0])[:60], "exponent notation: '1.5e+10'.rstrip('0') is '1.5e+1'")
+    # every other method of that name is a plain pass-through to this renderer (no remembered text)
+    for fo in prog.all_functions():
+        if fo.name == r.name and fo is not r and fo.key != r.key and '/deprecated/' not in fo.module.rel and fo not in acc['wrapper'] \
+                and fo.key not in [w_.key for w_ in acc['wrapper']]:
+            check.saw(fo)
+            check.ob('C19.R2', '%s::wrapper-is-pass-through' % fo.key, False, fo.where,
+                     'the table text returned is not always the rendering of the current series (a remembered text can be returned)',
+                     'rendering, stepping the solver, rendering again')
     # wrapper passes the format through
     for w in acc['wrapper']:
         check.saw(w)
@@ -239,5 +308,5 @@ def run(prog, check):
     check.saw(sa)
     check_bounds(check, sa, single_assign_subst(sa.node), rule='C19.R3')
     check.floor('C19.R1', 3)
-    check.floor('C19.R2', 6)
+    check.floor('C19.R2', 7)
     check.floor('C19.R3', 1)
